@@ -1176,6 +1176,8 @@ fn parse_switch(p: &mut Parser, recovery_set: TokenSet) -> CompletedMarker {
                 break;
             }
 
+            let start_idx = p.token_idx;
+
             let arm_m = p.start();
             // todo: catch shorthand cases where the dot is missing
             if p.at(TokenKind::Dot) {
@@ -1212,6 +1214,12 @@ fn parse_switch(p: &mut Parser, recovery_set: TokenSet) -> CompletedMarker {
             // attach themselves to the last block as paths
             if !p.at(TokenKind::RBrace) || p.at(TokenKind::Comma) {
                 p.expect_with_no_skip(TokenKind::Comma);
+            }
+
+            if p.token_idx == start_idx {
+                // nothing was consumed (the next token is in the recovery set),
+                // so going around again would never end
+                break;
             }
         }
 
